@@ -15,6 +15,10 @@
 (*                      GetCollectionNameFromFull, which panics on it         *)
 (*   RpcPosCheckedFirst the replicate-channel position is decoded before the  *)
 (*                      collection checkpoint of the new task is stored       *)
+(*   Utf8LabelsHandled  strings that become Prometheus label values (request  *)
+(*                      type, task id) are checked / sanitised: prometheus    *)
+(*                      panics on a label value that is not valid UTF-8       *)
+(*                      (server.go:89, cdc_impl.go:574)                       *)
 (* Contract: Total, InvalidRejected, RejectIsNoop.                            *)
 EXTENDS Integers, Sequences, FiniteSets, TLC, Json
 
@@ -23,10 +27,10 @@ CONSTANTS Slots,          \* task slots, e.g. {1, 2}
           OddKinds,       \* structurally valid creates with adversarial names: subset of {"create_odd", "create_dot"}
           MaxSetup,       \* accepted requests before the probes
           MaxProbes,      \* probes per plan
-          DotNameHandled, RpcPosCheckedFirst
+          DotNameHandled, RpcPosCheckedFirst, Utf8LabelsHandled
 
 \* requests that are answered without touching any task
-Envelope  == {"nonpost", "unreadable", "nonjson", "mutated", "wrongshape", "unknowntype"}
+Envelope  == {"nonpost", "unreadable", "nonjson", "mutated", "wrongshape", "unknowntype", "nonutf8"}
 \* semantically invalid creates rejected by validCreateRequest / checkCollectionInfos before any book-keeping
 InvalidEarly == {"c_noaddr", "c_both", "c_nohost", "c_badport", "c_userpass", "c_negtimeout", "c_kafkanotopic",
                  "c_negperiod", "c_negsize", "c_nocoll", "c_twocoll", "c_collanddb", "c_emptydbc", "c_emptyname",
@@ -92,7 +96,8 @@ SlotsOf(c) == IF c \in TaskOps THEN Slots \cup {0} ELSE IF c = "c_dup" THEN Slot
 StOf(s) == IF s = 0 THEN "none" ELSE st[s]
 Probe(c, s) ==
     \/ /\ c = "nonpost" /\ Answer("405") /\ Same
-    \/ /\ c \in Envelope \ {"nonpost"} /\ Answer("err") /\ Same
+    \/ /\ c \in Envelope \ {"nonpost", "nonutf8"} /\ Answer("err") /\ Same
+    \/ /\ c = "nonutf8" /\ (IF Utf8LabelsHandled THEN Answer("err") ELSE Answer("broken")) /\ Same
     \/ /\ c \in ReadOnly /\ Answer("200") /\ Same
     \/ /\ c \in InvalidEarly /\ Answer("err") /\ Same
     \/ /\ c \in InvalidLate \ {"c_badrpcpos"} /\ ReachesBook(Answer("err") /\ Same)
